@@ -284,7 +284,7 @@ def apply_case(case):
 
 def gen_cases(tier, seed, sets, opts):
     rng = random.Random(1200 + seed)
-    ncases = 320 if tier == "quick" else 2000
+    ncases = 300 if tier == "quick" else 2000
     uni = [s for s in sets if s["universal"]]
     nonuni = [s for s in sets if not s["universal"] and len(s["gs"]) >= 2]
     predef = list(PREDEF_NAMES)
@@ -354,6 +354,45 @@ def gen_cases(tier, seed, sets, opts):
     return cases
 
 
+def shaped_cases(opts):
+    """documentation examples and option-specific families that the seeded sample may miss"""
+    def opt(graph, custom="none", ww=0, mx=-1, stopk=0):
+        return next(o for o in opts if (o["graph"], o["custom"], o["ww"], o["mx"], o["stopk"]) == (graph, custom, ww, mx, stopk))
+    c2 = lambda g, p=(): dict(rec(g, [1, 2, 3], list(p)), mods=[{"t": "ctrl", "cv": [1, 1]}])
+    fam = []
+    rot = PREDEF_NAMES["ROTATIONS_PLUS_CNOT"]
+    # GlobalPhase mapped to the null decomposition (the remedy the transform's own warning proposes): phases of
+    # controlled operators are relative phases and must survive
+    for circ in ([rec("T", [1])], [rec("CRZ", [1, 2], [4])], [c2("RZ", [4])], [c2("S")], [c2("PhaseShift", [12])],
+                 [dict(rec("GlobalPhase", [1, 2], [4]), mods=[{"t": "ctrl", "cv": [1, 1]}])],
+                 [dict(rec("SISWAP", [1, 2, 3]), mods=[{"t": "ctrl", "cv": [1]}])], [rec("Toffoli", [1, 2, 3]), rec("Hadamard", [1])]):
+        fam.append((opt(True, "nullphase"), "ROTATIONS_PLUS_CNOT", rot, gate_sets.ROTATIONS_PLUS_CNOT, 3, circ))
+    # examples of the transform's docstring
+    fam.append((opt(False), "doc:CNOT+RX", ["CNOT", "RX"], {qp.CNOT, qp.RX}, 2, [rec("IsingXX", [1, 2], [4])]))
+    for g in (False, True):
+        fam.append((opt(g), "doc:Toffoli+RX+RZ+GlobalPhase", ["Toffoli", "RX", "RZ", "GlobalPhase"], {qp.Toffoli, "RX", "RZ", "GlobalPhase"}, 3,
+                    [rec("Hadamard", [1]), rec("Toffoli", [1, 2, 3])]))
+        fam.append((opt(g, stopk=2), "doc:H+T+CNOT+GlobalPhase", ["Hadamard", "T", "CNOT", "GlobalPhase"], {"H", "T", "CNOT", "GlobalPhase"}, 3,
+                    [rec("Hadamard", [1]), rec("Toffoli", [1, 2, 3])]))
+        fam.append((opt(g), "doc:RX+RY+RZ+CZ+CNOT", ["RX", "RY", "RZ", "CZ", "CNOT"], {"RX", "RY", "RZ", "CZ", "CNOT"}, 2, [rec("CRX", [1, 2], [4])]))
+        fam.append((opt(g, mx=1), "ROTATIONS_PLUS_CNOT", rot, gate_sets.ROTATIONS_PLUS_CNOT, 3, [rec("QFT", [1, 2]), rec("Toffoli", [3, 1, 2])]))
+    w = {qp.Toffoli: 1.23, qp.RX: 4.56, qp.CZ: 0.01, qp.H: 420, qp.CRZ: 100}
+    w2 = {qp.Toffoli: 1.23, qp.RX: 4.56, qp.CZ: 0.01, qp.H: 0.1, qp.CRZ: 0.1}
+    for ww_ in (w, w2):
+        fam.append((opt(True), "doc:weighted", ["Toffoli", "RX", "CZ", "Hadamard", "CRZ"], ww_, 3, [rec("CRX", [1, 2], [4]), rec("Toffoli", [1, 2, 3])]))
+    fam.append((opt(True, "alt"), "doc:RX+RZ+CZ+GlobalPhase", ["RX", "RZ", "CZ", "GlobalPhase"], {"RX", "RZ", "CZ", "GlobalPhase"}, 2,
+                [rec("CNOT", [1, 2]), rec("IsingXX", [1, 2], [4])]))
+    # work wires
+    for ww_ in (-1, 1, 2):
+        fam.append((opt(True, ww=ww_), "Toffoli+CNOT+PauliX", ["Toffoli", "CNOT", "PauliX"], {"Toffoli", "CNOT", "X"}, 4,
+                    [rec("MultiControlledX", [1, 2, 3, 4], [], [1, 1, 1])]))
+    out = []
+    for o, tag, names, arg, n, circ in fam:
+        cfg = {"graph": bool(o["graph"]), "gs": list(names), "ww": o["ww"], "mx": o["mx"], "custom": o["custom"], "stopk": o["stopk"]}
+        out.append({"cfg": cfg, "rel": o["rel"], "gs_arg": arg, "gs_names": list(names), "gs_tag": tag, "n": n, "circ": circ, "meas": True})
+    return out
+
+
 def _cols(n, nw):
     return [c for c in range(1 << n) if c % (1 << nw) == 0] if nw else []
 
@@ -364,7 +403,7 @@ def run(tier, seed):
     phase = {}
     sets, opts, gres = configs()
     phase["cfggen"] = round(time.time() - t0, 1)
-    cases = gen_cases(tier, seed, sets, opts)
+    cases = shaped_cases(opts) + gen_cases(tier, seed, sets, opts)
     viol, traces, tmeta = [], [], []
     ecases = {4: [], 5: []}
     emeta = {4: [], 5: []}
